@@ -127,7 +127,9 @@ def EntriesAt (pol : Nat) (sb : Bytes) : List NVar → List NVar → Nat → Nat
 def NvF (pol : Nat) (s : Store) (b : Bytes) : Prop :=
   s.buf = b ∧ s.length = b.length ∧ TableOk b s.guidStore ∧
   s.gso = b.length - 16 * s.guidStore.length ∧
-  EntriesAt pol b [] s.entries 0 0 s.fso s.guidStore.length
+  EntriesAt pol b [] s.entries 0 0 s.fso s.guidStore.length ∧
+  -- since fixes/C04-nvar-table-overlap.diff (wp-nvfix): the entries end at or before the FINAL GUID table
+  s.fso ≤ s.gso
 
 /-- … and so is every nested store, to depth `d` -/
 def NvFDeep (pol : Nat) : Nat → Store → Bytes → Prop
